@@ -127,7 +127,15 @@ def compare_rotations(ctx, cls, text, rng, tier, label, max_rot=None):
         ctx.count("skipped_no_unique_occurrence")
         ctx.hist("skipped_no_unique_occurrence_by", label)
         return
-    base = observe(cls, CircularRecord(Seq(text), "r"))
+    # one plasmid in five carries a record-wide annotation whose value compares element-wise (a numpy profile): legal for
+    # Biopython, and a trap for any code that merges or compares the annotations of two pieces of a record
+    ann = None
+    if (n + ord(text[0]) + ord(text[-1])) % 5 == 0:
+        import numpy
+        ann = {"gc_skew": numpy.arange(4) / 4.0, "molecule_type": "DNA"}
+        ctx.count("c02_records_with_array_annotation")
+    mkrec = lambda t: CircularRecord(Seq(t), "r", annotations=dict(ann) if ann else None)
+    base = observe(cls, mkrec(text))
     ctx.hist("reference_observation", base[0])
     site = cls.cutter.site
     from ..util import occurrences
@@ -163,9 +171,9 @@ def compare_rotations(ctx, cls, text, rng, tier, label, max_rot=None):
     for k in ks:
         for how in ("string", "operator"):
             if how == "string":
-                rec = CircularRecord(Seq(rot_left(text, k)), "r")
+                rec = mkrec(rot_left(text, k))
             else:
-                rec = CircularRecord(Seq(text), "r") << k
+                rec = mkrec(text) << k
             ctx.count("evaluations")
             got = observe(cls, rec)
             ctx.count("c02_comparisons")
